@@ -499,3 +499,21 @@ M("fmt12-capture-inverted", "C19", TY, "        if capture_locals:\n            
 M("fmt12-flat-default", "C19", TY, "    def format_flat(self, *, show_contexts: bool = False) -> List[str]:", "    def format_flat(self, *, show_contexts: bool = True) -> List[str]:", "FMT-12")
 M("fmt4-exiting-operand-dropped", "C19", TY, "        if not (self.contexts and self.contexts[-1].is_exiting):\n            yield self.as_stdlib_summary", "        if not self.contexts:\n            yield self.as_stdlib_summary", "FMT-4")
 M("reg5-hide-line-inverted", "C12", CU, "        if hide_line:\n            frame.hide_line = True", "        if not hide_line:\n            frame.hide_line = True", "REG-5")
+
+# ---------------------------------------------------------------- FORM-1 / FORM-2 (ctypes arithmetic)
+M("form1-310-valuestack-plus", "C07", L310, "stack_start_offset = frame_raw.f_valuestack - id(frame)", "stack_start_offset = frame_raw.f_valuestack + id(frame)", "FORM-1")
+M("form1-310-localsplus-plus", "C07", L310, "    localsplus_offset = stack_start_offset - wordsize * (", "    localsplus_offset = stack_start_offset + wordsize * (", "FORM-1")
+M("form1-310-cells-minus", "C07", L310, "co.co_nlocals + len(co.co_cellvars) + len(co.co_freevars)", "co.co_nlocals + len(co.co_cellvars) - len(co.co_freevars)", "FORM-1")
+M("form1-310-stacktop", "C07", L310, "        stack_top_offset = frame_raw.f_stacktop - id(frame)", "        stack_top_offset = frame_raw.f_stacktop + id(frame)", "FORM-1")
+M("form1-310-blockend", "C07", L310, "    blockstack_end_offset = blockstack_offset + (", "    blockstack_end_offset = blockstack_offset - (", "FORM-1")
+M("form1-310-stackdepth", "C07", L310, "return cast(int, self.f_valuestack + (self.f_stackdepth * wordsize))", "return cast(int, self.f_valuestack - (self.f_stackdepth * wordsize))", "FORM-1")
+M("form1-311-end", "C07", L311, "    end_offset = stack_start_offset + wordsize * co.co_stacksize", "    end_offset = stack_start_offset - wordsize * co.co_stacksize", "FORM-1")
+M("form1-311-stacktop", "C07", L311, "                stack_top_offset = localsplus_offset + wordsize * stacktop_copy", "                stack_top_offset = stack_start_offset + wordsize * stacktop_copy", ["FORM-1"], accept_analysis_error=True)
+M("form1-311-stacklen", "C07", L311, "stack_len = (stack_top_offset - stack_start_offset) // wordsize", "stack_len = (stack_top_offset + stack_start_offset) // wordsize", "FORM-1")
+M("form2-310-walk-le", "C07", L310, "    while blockstack_offset < blockstack_end_offset:", "    while blockstack_offset <= blockstack_end_offset:", "FORM-2")
+M("form2-310-no-step", "C07", L310, "        blockstack_offset += ctypes.sizeof(PyTryBlock)\n", "", "FORM-2")
+M("form2-310-handler-unscaled", "C07", L310, "                    handler=block.b_handler * offset_mult,", "                    handler=block.b_handler,", "FORM-2")
+M("form2-310-no-truncation", "C07", L310, "        del stack[stack_validity_limit:]\n", "", "FORM-2")
+M("form2-310-limit-min", "C07", L310, "stack_validity_limit = max(blk.level for blk in details.blocks)", "stack_validity_limit = min(blk.level for blk in details.blocks)", "FORM-2")
+M("form2-310-limit-default-1", "C07", L310, "            stack_validity_limit = 0\n", "            stack_validity_limit = 1\n", "FORM-2")
+T("twin-form1-commuted", "C07", L311, "    end_offset = stack_start_offset + wordsize * co.co_stacksize", "    end_offset = co.co_stacksize * wordsize + stack_start_offset")
